@@ -6,8 +6,40 @@ source).  All hold for every dataset (no size bound), any number of groups, ever
 `flip`, grid size `N ≥ 1` and also for a forced grid index (the rule at ANY grid index is parity-satisfying).
 "Every group contains both labels" is `BothLabels groups`; a successful fit implies it.
 -/
+/-
+CLAUSE → THEOREM TABLE (review R1-B; property text in properties.jsonl, id C04)
+
+| clause of the property text                                              | theorem(s)                                                        |
+|--------------------------------------------------------------------------|-------------------------------------------------------------------|
+| "after fit ... whenever every group contains both labels" (fit succeeds)  | fit_simple_succeeds, fit_EO_succeeds; converse: parity_* conclude |
+|                                                                          | BothLabels; fit_simple_none_iff                                   |
+| a group lacks a label ⇒ ValueError (outside the quantifier)               | fit_simple_rejects_degenerate, fit_EO_rejects_degenerate          |
+| "expected value under the fitted randomised rule ... computed on the      | expectedMetric = m.eval (expCM (ruleProb rule) rows): sums over   |
+|  training rows of each group"                                            | the ROWS of the predict-time probability; tied to `_pmf_predict`  |
+|                                                                          | by fit_predict_consistent_simple / _EO (Pmf.thrPositive)          |
+| "... of the constrained metric (selection rate, FPR, FNR, TPR, TNR)       | parity_simple (+_pairwise), ONE theorem generic in `xm` with       |
+|  is the same for all groups"                                             | IsConstraintMetric xm := xm ∈ LIFTED SIMPLE_CONSTRAINTS ∨ eoX;     |
+|                                                                          | all_simple_constraints_covered; parity_simple_of_bothLabels       |
+| "both FPR and TPR for equalized odds"                                     | parity_EO, parity_EO_of_bothLabels                                 |
+| "up to floating-point rounding"                                           | exact equality in Rat; rounding = tolerance of the correspondence  |
+|                                                                          | (measured, see harness/thr_common.py TOL); F18 = the one place      |
+|                                                                          | where rounding changes the RULE (threshold_betweenness_suffices,   |
+|                                                                          | midpoint_strictly_between, threshold_on_score_breaks_rule)         |
+| "any scores (including ties)"                                             | no hypothesis on scores anywhere; sweep_point_sound               |
+| "any number of groups"                                                    | groups : List (List Row) arbitrary (EO: groups ≠ [] for success)  |
+| "either setting of flip"                                                  | flip : Bool universally quantified                                |
+| "any grid size"                                                           | N : Nat arbitrary: parity_*_any_grid, fit_*_succeeds_any_grid,     |
+|                                                                          | *_of_bothLabels (N = 0 = the grid {0} included; the DRIVER refuses |
+|                                                                          | n = 0 and the generator never draws it: theorem only, no tie)      |
+Supporting: metric_affine, expected_metric_of_mixture, hull_invariants, sortLex_sorted, interpIndex_bracket (no x/0:
+`interpolateAt` returns none on a zero-width bracket and group_rule_exists shows it is never taken), group_rule_exists,
+src_* (what the lifted text must say).
+-/
 import FairModel.Lemmas.ThresholdFit
+import FairModel.Lemmas.C04Review
 import FairModel.Lemmas.ThresholdPredict
+
+set_option linter.unusedVariables false
 
 namespace C04
 open Threshold ThresholdGen
@@ -154,12 +186,12 @@ theorem group_rule_exists (flip : Bool) (xm ym : Metric) (rows : List Row) (hx :
   obtain ⟨e1, e2⟩ := expected_simple gc hs
   exact ⟨H, r, gc.eq, hr, hs.p0_nonneg, hs.p1_nonneg, hs.sum_one, e1, e2⟩
 
-/-- the fit succeeds whenever every group has both labels -/
-theorem fit_simple_succeeds (flip : Bool) (xm ym : Metric) (N : Nat) (groups : List (List Row))
-    (hN : 1 ≤ N) (hx : IsConstraintMetric xm) (hb : BothLabels groups) :
+/-- the fit succeeds whenever every group has both labels — for ANY grid size, `N = 0` (the one-point grid `[0.]`) included -/
+theorem fit_simple_succeeds_any_grid (flip : Bool) (xm ym : Metric) (N : Nat) (groups : List (List Row))
+    (hx : IsConstraintMetric xm) (hb : BothLabels groups) :
     ∃ fit, fitSimple flip xm ym N groups none = some fit := by
   obtain ⟨hulls, hh⟩ := hullsOf_exists flip xm ym groups hx hb
-  obtain ⟨cs, hc⟩ := curves_exists hx hh hN
+  obtain ⟨cs, hc⟩ := curves_exists_any hx hh N
   have hclen := (curves_some hc).1
   have hne : cs.map (objSimple groups) ≠ [] := by
     intro h; have := congrArg List.length h
@@ -173,11 +205,17 @@ theorem fit_simple_succeeds (flip : Bool) (xm ym : Metric) (N : Nat) (groups : L
   rw [List.getElem?_eq_getElem hlt, List.getElem?_eq_getElem (by simpa using hlt)]
   exact ⟨_, rfl⟩
 
+/-- the fit succeeds whenever every group has both labels -/
+theorem fit_simple_succeeds (flip : Bool) (xm ym : Metric) (N : Nat) (groups : List (List Row))
+    (hN : 1 ≤ N) (hx : IsConstraintMetric xm) (hb : BothLabels groups) :
+    ∃ fit, fitSimple flip xm ym N groups none = some fit :=
+  fit_simple_succeeds_any_grid flip xm ym N groups hx hb
+
 /-- (e) **parity_simple**: after a successful fit (argmax or any forced grid index) every group's rule is a
     proper mixture and its expected constrained metric on the group's own rows equals the common grid value
     `iBest / N` — exact equality in `Rat`; the expected objective metric is the interpolated y -/
-theorem parity_simple (flip : Bool) (xm ym : Metric) (N : Nat) (groups : List (List Row)) (force : Option Nat)
-    (fit : Fit) (hN : 1 ≤ N) (hx : IsConstraintMetric xm)
+theorem parity_simple_any_grid (flip : Bool) (xm ym : Metric) (N : Nat) (groups : List (List Row)) (force : Option Nat)
+    (fit : Fit) (hx : IsConstraintMetric xm)
     (hfit : fitSimple flip xm ym N groups force = some fit) :
     BothLabels groups ∧ fit.iBest ≤ N ∧ fit.rules.length = groups.length ∧
     ∀ j (hj : j < groups.length) (hj' : j < fit.rules.length),
@@ -186,7 +224,7 @@ theorem parity_simple (flip : Bool) (xm ym : Metric) (N : Nat) (groups : List (L
   obtain ⟨hulls, cs, best, hh, hc, hb, _, hrules, _, _⟩ := fitSimple_some hfit
   have hclen := (curves_some hc).1
   obtain ⟨hi, hbest⟩ := List.getElem?_eq_some_iff.mp hb
-  obtain ⟨hrow, hent⟩ := curves_entry hx hh hN hc fit.iBest hi
+  obtain ⟨hrow, hent⟩ := curves_entry_any hx hh hc fit.iBest hi
   have hlen := (hullsOf_some hh).1
   rw [hbest] at hrow hent
   refine ⟨hullsOf_bothLabels hh, by omega, by rw [hrules]; simp [hrow], ?_⟩
@@ -196,6 +234,16 @@ theorem parity_simple (flip : Bool) (xm ym : Metric) (N : Nat) (groups : List (L
   have hr : fit.rules[j] = simpleRule best[j] := by simp [hrules]
   rw [hr]
   exact ⟨(expected_simple gc hs).1, ruleProb_simple_range hs⟩
+
+/-- `parity_simple_any_grid` for `N ≥ 1` (the statement the other property files use) -/
+theorem parity_simple (flip : Bool) (xm ym : Metric) (N : Nat) (groups : List (List Row)) (force : Option Nat)
+    (fit : Fit) (hN : 1 ≤ N) (hx : IsConstraintMetric xm)
+    (hfit : fitSimple flip xm ym N groups force = some fit) :
+    BothLabels groups ∧ fit.iBest ≤ N ∧ fit.rules.length = groups.length ∧
+    ∀ j (hj : j < groups.length) (hj' : j < fit.rules.length),
+      expectedMetric xm fit.rules[j] groups[j] = gridVal N fit.iBest ∧
+      (∀ s, 0 ≤ ruleProb fit.rules[j] s ∧ ruleProb fit.rules[j] s ≤ 1) :=
+  parity_simple_any_grid flip xm ym N groups force fit hx hfit
 
 /-- pairwise form: any two groups have the same expected constrained metric -/
 theorem parity_simple_pairwise (flip : Bool) (xm ym : Metric) (N : Nat) (groups : List (List Row))
@@ -210,18 +258,18 @@ theorem parity_simple_pairwise (flip : Bool) (xm ym : Metric) (N : Nat) (groups 
 theorem eo_metric_is_constraint : IsConstraintMetric eoXMetric := Or.inr rfl
 
 /-- the equalized-odds fit succeeds whenever every group has both labels and there is at least one group -/
-theorem fit_EO_succeeds (flip : Bool) (obj : Metric) (N : Nat) (groups : List (List Row))
-    (hN : 1 ≤ N) (hg : groups ≠ []) (hb : BothLabels groups) :
+theorem fit_EO_succeeds_any_grid (flip : Bool) (obj : Metric) (N : Nat) (groups : List (List Row))
+    (hg : groups ≠ []) (hb : BothLabels groups) :
     ∃ fit, fitEO flip obj N groups none = some fit := by
   obtain ⟨hulls, hh⟩ := hullsOf_exists flip eoXMetric eoYMetric groups eo_metric_is_constraint hb
-  obtain ⟨cs, hc⟩ := curves_exists eo_metric_is_constraint hh hN
+  obtain ⟨cs, hc⟩ := curves_exists_any eo_metric_is_constraint hh N
   have hclen := (curves_some hc).1
   have hlen := (hullsOf_some hh).1
   obtain ⟨ymins, hy⟩ : ∃ ymins, allSome (cs.map (fun is => minList (is.map (·.y)))) = some ymins := by
     apply allSome_of_forall
     intro row hrow
     obtain ⟨i, hi, rfl⟩ := List.getElem_of_mem hrow
-    have := (curves_entry eo_metric_is_constraint hh hN hc i hi).1
+    have := (curves_entry_any eo_metric_is_constraint hh hc i hi).1
     apply minList_isSome
     intro h
     have h2 := congrArg List.length h
@@ -245,11 +293,16 @@ theorem fit_EO_succeeds (flip : Bool) (obj : Metric) (N : Nat) (groups : List (L
       List.getElem?_eq_getElem (show argmaxFirst objs < ymins.length by omega)]
   exact ⟨_, rfl⟩
 
+theorem fit_EO_succeeds (flip : Bool) (obj : Metric) (N : Nat) (groups : List (List Row))
+    (hN : 1 ≤ N) (hg : groups ≠ []) (hb : BothLabels groups) :
+    ∃ fit, fitEO flip obj N groups none = some fit :=
+  fit_EO_succeeds_any_grid flip obj N groups hg hb
+
 /-- (f) **parity_EO**: after a successful equalized-odds fit every group's rule (interpolation + p_ignore towards
     the constant `x_best`) has expected FPR exactly `x_best = iBest / N` and expected TPR exactly `y_best`, the
     pointwise minimum of the ROC hulls — on its own training rows, for every group; `p_ignore ∈ [0,1]` -/
-theorem parity_EO (flip : Bool) (obj : Metric) (N : Nat) (groups : List (List Row)) (force : Option Nat)
-    (fit : Fit) (yBest : Rat) (hN : 1 ≤ N)
+theorem parity_EO_any_grid (flip : Bool) (obj : Metric) (N : Nat) (groups : List (List Row)) (force : Option Nat)
+    (fit : Fit) (yBest : Rat)
     (hfit : fitEO flip obj N groups force = some (fit, yBest)) :
     BothLabels groups ∧ fit.iBest ≤ N ∧ fit.rules.length = groups.length ∧
     ∀ j (hj : j < groups.length) (hj' : j < fit.rules.length),
@@ -260,12 +313,12 @@ theorem parity_EO (flip : Bool) (obj : Metric) (N : Nat) (groups : List (List Ro
   have hx := eo_metric_is_constraint
   have hclen := (curves_some hc).1
   obtain ⟨hi, hbest⟩ := List.getElem?_eq_some_iff.mp hb
-  obtain ⟨hrow, hent⟩ := curves_entry hx hh hN hc fit.iBest hi
+  obtain ⟨hrow, hent⟩ := curves_entry_any hx hh hc fit.iBest hi
   have hlen := (hullsOf_some hh).1
   rw [hbest] at hrow hent
   have hiN : fit.iBest ≤ N := by omega
   have hg0 := gridVal_nonneg N fit.iBest
-  have hg1 := gridVal_le_one hN hiN
+  have hg1 := gridVal_le_one_any hiN
   -- yBest is the minimum of the interpolated TPRs of row iBest
   have hmin : minList (best.map (·.y)) = some yBest := by
     obtain ⟨hylen, hyget⟩ := allSome_map_get hy
@@ -317,6 +370,101 @@ theorem parity_EO (flip : Bool) (obj : Metric) (N : Nat) (groups : List (List Ro
       have : 0 < best[j].y - best[j].x := by
         rw [hrx]; exact lt_of_le_of_ne (by linarith) (fun h => hd (by rw [hrx]; linarith))
       rw [div_le_one this]; rw [hrx]; linarith
+
+/-- `parity_EO_any_grid` for `N ≥ 1` (the statement the other property files use) -/
+theorem parity_EO (flip : Bool) (obj : Metric) (N : Nat) (groups : List (List Row)) (force : Option Nat)
+    (fit : Fit) (yBest : Rat) (hN : 1 ≤ N)
+    (hfit : fitEO flip obj N groups force = some (fit, yBest)) :
+    BothLabels groups ∧ fit.iBest ≤ N ∧ fit.rules.length = groups.length ∧
+    ∀ j (hj : j < groups.length) (hj' : j < fit.rules.length),
+      expectedMetric eoXMetric fit.rules[j] groups[j] = gridVal N fit.iBest ∧
+      expectedMetric eoYMetric fit.rules[j] groups[j] = yBest ∧
+      ∃ pi c, fit.rules[j].ign = some (pi, c) ∧ 0 ≤ pi ∧ pi ≤ 1 ∧ c = gridVal N fit.iBest :=
+  parity_EO_any_grid flip obj N groups force fit yBest hfit
+
+/-! ### The property as ONE statement, and the error branch (review additions)
+
+`parity_simple` / `parity_EO` take a successful fit as hypothesis; `fit_*_succeeds` derive it from "every group contains both
+labels".  Composed: the ONLY hypotheses are `BothLabels groups` and — for the simple constraints — that the metric is one of the
+LIFTED `SIMPLE_CONSTRAINTS` (all of them: `all_simple_constraints_covered`).  ANY grid size `N : Nat`, `N = 0` included
+(`np.linspace(0, 1, 1) = [0.]`, accepted by fairlearn; `*_any_grid`, `Lemmas/C04Review.lean`) — the older statements with
+`1 ≤ N` are kept as corollaries because other property files use them.  No sortedness, no distinct scores, no lower bound on the number of groups
+(equalized odds: at least one group, because `np.amin` of an empty frame raises). -/
+
+/-- every entry of the lifted `SIMPLE_CONSTRAINTS` table (selection rate / demographic parity, FPR, FNR, TPR, TNR) is covered
+    by `parity_simple`; equalized odds' x metric (FPR) too -/
+theorem all_simple_constraints_covered :
+    (∀ p ∈ simpleConstraints, IsConstraintMetric p.2) ∧ IsConstraintMetric eoXMetric ∧
+    simpleConstraints.map (·.2) =
+      [.selection_rate, .selection_rate, .false_positive_rate, .false_negative_rate, .true_positive_rate,
+       .true_negative_rate] := by decide +kernel
+
+/-- **C04, simple constraints, in one statement**: whenever every group contains both labels, the fit succeeds and the
+    expected constrained metric of the fitted randomised rule, computed on each group's own training rows, is the same for
+    all groups (any scores incl. ties, any number of groups, either `flip`, ANY grid size, any objective) -/
+theorem parity_simple_of_bothLabels (flip : Bool) (xm ym : Metric) (N : Nat) (groups : List (List Row))
+    (hx : IsConstraintMetric xm) (hb : BothLabels groups) :
+    ∃ fit, fitSimple flip xm ym N groups none = some fit ∧ fit.rules.length = groups.length ∧
+      ∀ j k (hj : j < groups.length) (hk : k < groups.length) (hj' : j < fit.rules.length) (hk' : k < fit.rules.length),
+        expectedMetric xm fit.rules[j] groups[j] = expectedMetric xm fit.rules[k] groups[k] := by
+  obtain ⟨fit, hfit⟩ := fit_simple_succeeds_any_grid flip xm ym N groups hx hb
+  obtain ⟨_, _, hlen, h⟩ := parity_simple_any_grid flip xm ym N groups none fit hx hfit
+  exact ⟨fit, hfit, hlen, fun j k hj hk hj' hk' => by rw [(h j hj hj').1, (h k hk hk').1]⟩
+
+/-- **C04, equalized odds, in one statement**: both the expected FPR and the expected TPR coincide across groups -/
+theorem parity_EO_of_bothLabels (flip : Bool) (obj : Metric) (N : Nat) (groups : List (List Row))
+    (hg : groups ≠ []) (hb : BothLabels groups) :
+    ∃ fit yBest, fitEO flip obj N groups none = some (fit, yBest) ∧ fit.rules.length = groups.length ∧
+      ∀ j k (hj : j < groups.length) (hk : k < groups.length) (hj' : j < fit.rules.length) (hk' : k < fit.rules.length),
+        expectedMetric eoXMetric fit.rules[j] groups[j] = expectedMetric eoXMetric fit.rules[k] groups[k] ∧
+        expectedMetric eoYMetric fit.rules[j] groups[j] = expectedMetric eoYMetric fit.rules[k] groups[k] := by
+  obtain ⟨⟨fit, yBest⟩, hfit⟩ := fit_EO_succeeds_any_grid flip obj N groups hg hb
+  obtain ⟨_, _, hlen, h⟩ := parity_EO_any_grid flip obj N groups none fit yBest hfit
+  refine ⟨fit, yBest, hfit, hlen, fun j k hj hk hj' hk' => ?_⟩
+  rw [(h j hj hj').1, (h k hk hk').1, (h j hj hj').2.1, (h k hk hk').2.1]
+  exact ⟨rfl, rfl⟩
+
+/-- **error branch** (`ValueError: Degenerate labels`): if some group lacks a label the model fit returns `none` — for
+    every metric pair, grid size, `flip`, forced index; no theorem above says anything about such data -/
+theorem fit_simple_rejects_degenerate (flip : Bool) (xm ym : Metric) (N : Nat) (groups : List (List Row))
+    (force : Option Nat) (g : List Row) (hg : g ∈ groups) (hdeg : nPos g = 0 ∨ nNeg g = 0) :
+    fitSimple flip xm ym N groups force = none := by
+  cases h : fitSimple flip xm ym N groups force with
+  | none => rfl
+  | some fit =>
+    exfalso
+    obtain ⟨hulls, _, _, hh, _⟩ := fitSimple_some h
+    have := hullsOf_bothLabels hh g hg
+    rcases hdeg with h0 | h0
+    · exact this.1 h0
+    · exact this.2 h0
+
+theorem fit_EO_rejects_degenerate (flip : Bool) (obj : Metric) (N : Nat) (groups : List (List Row))
+    (force : Option Nat) (g : List Row) (hg : g ∈ groups) (hdeg : nPos g = 0 ∨ nNeg g = 0) :
+    fitEO flip obj N groups force = none := by
+  cases h : fitEO flip obj N groups force with
+  | none => rfl
+  | some fy =>
+    exfalso
+    obtain ⟨fit, yb⟩ := fy
+    obtain ⟨hulls, _, _, _, hh, _⟩ := fitEO_some h
+    have := hullsOf_bothLabels hh g hg
+    rcases hdeg with h0 | h0
+    · exact this.1 h0
+    · exact this.2 h0
+
+/-- hence, for a constraint metric and ANY grid size: the fit is rejected IFF some group lacks a label -/
+theorem fit_simple_none_iff (flip : Bool) (xm ym : Metric) (N : Nat) (groups : List (List Row))
+    (hx : IsConstraintMetric xm) :
+    fitSimple flip xm ym N groups none = none ↔ ¬ BothLabels groups := by
+  constructor
+  · intro h hb
+    obtain ⟨fit, hfit⟩ := fit_simple_succeeds_any_grid flip xm ym N groups hx hb
+    rw [h] at hfit; cases hfit
+  · intro h
+    cases hf : fitSimple flip xm ym N groups none with
+    | none => rfl
+    | some fit => exact absurd (parity_simple_any_grid flip xm ym N groups none fit hx hf).1 h
 
 /-! ### Fit → predict: the parity theorems are about the pmf that `predict` really uses
 
@@ -410,5 +558,22 @@ example : (fitEO false .accuracy_score 4 ex none).map (fun f =>
       (ThresholdPredict.predictPmf ["a", "b", "c"] f.1 [("a", 7/8), ("a", 3/4), ("b", 5/8), ("zz", 1)]).map (·.2)) =
     some [4/7, 5/14, 1/2, 0] := by
   decide +kernel
+
+
+-- review additions: the one-statement forms' hypotheses are met by `ex` (3 groups, ties, both labels) ...
+example : IsConstraintMetric .false_positive_rate ∧ BothLabels ex ∧ ex ≠ [] ∧ ex.length = 3 := by decide +kernel
+-- ... also for grid size 0 (grid {0}): every group sits at FPR 0; equalized odds pulls all groups down to the TPR 0 of the
+-- group whose top score level is label-mixed (p_ignore = 1 for the other two)
+example : (fitSimple true .false_positive_rate .accuracy_score 0 ex none).map
+    (fun f => (f.iBest, List.zipWith (fun r g => expectedMetric .false_positive_rate r g) f.rules ex)) =
+    some (0, [0, 0, 0]) := by decide +kernel
+example : (fitEO false .accuracy_score 0 ex none).map (fun f =>
+      List.zipWith (fun r g => (expectedMetric .false_positive_rate r g, expectedMetric .true_positive_rate r g))
+        f.1.rules ex) = some [(0, 0), (0, 0), (0, 0)] := by decide +kernel
+-- ... and the error branch: drop the only negative of a group and the fit is rejected, for simple constraints and EO
+def exDeg : List (List Row) := [gA, [⟨1, true⟩, ⟨0, true⟩], gC]
+example : nNeg [⟨1, true⟩, ⟨0, true⟩] = 0 ∧ [⟨1, true⟩, ⟨0, true⟩] ∈ exDeg := by decide +kernel
+example : fitSimple true .false_positive_rate .accuracy_score 5 exDeg none = none := by decide +kernel
+example : (fitEO false .accuracy_score 4 exDeg none).isNone = true := by decide +kernel
 
 end C04
